@@ -123,7 +123,7 @@ def _run_race(case):
     for t in ths:
       t.join()
     return True
-  box, s = sched.run(sched.random_chooser(common.Rng('c09/%s' % case['rseed']), case.get('switch', 0.4)), body,
+  box, s = sched.run(sched.chooser_for(case, 'c09'), body,
                      max_steps=400000)
   facts = []
   if s.deadlock or 'sched_error' in box:
